@@ -9,6 +9,11 @@ Proved for ALL families of per-architecture universes:
 * `filter_available`   every candidate that passes `filterPackages` under that set is available on
                        every other architecture, hence so is every package picked through it
                        (`resolvePackage_available`).
+* `dq_ignores_other_fields` / `dq_siblings_as_sets` / `oracle_ignores_other_fields`  the set (and the oracle) are
+                       functions of the per-architecture (identity, name, version) lists and of NOTHING else a record
+                       carries — in particular not of its architecture FIELD (`A:noarch`, `all`, …): indexes are per
+                       architecture whatever their records say; ties `tie_dqStmts`, `tie_dqPkgReads`,
+                       `tie_newPkgResolverReads` (regenerated statements / field reads of `disqualifyDifference`).
 The property is FALSE for install_if additions, which are appended without passing the filter
 (F14a, witness below, replayed on the Go code from corpus/multiarch/F14a.json).
 
@@ -30,6 +35,7 @@ import Apko.Model.Resolver
 import Apko.Proofs.C02
 import Apko.Generated.Resolver
 import Apko.Proofs.Lemmas.ResolverAvail
+import Apko.Proofs.Lemmas.DqKeys
 
 namespace Apko.C14
 open Apko Apko.Resolver
@@ -106,6 +112,118 @@ theorem filter_available (archs : List (Text × Universe)) (self : Text) (u : Un
     exact hnd this
   · rfl
 
+/-! ## what the availability test reads of a package record
+
+The up-front set depends on (name, version) membership per architecture index and on NOTHING else of a record: not on
+origin, repository, pin, priority, dependencies, provides, install_if (fields of the model's record), and not on what
+the model's record does not even have — the architecture FIELD `A:` (`noarch`, `all`, another architecture's name,
+empty), checksum, sizes.  An index is per architecture whatever its records say about themselves: a `noarch` build
+listed by one architecture only is disqualified like any other.  The tie is the regenerated statement list of
+`disqualifyDifference` and the selector chains it (and `newPkgResolver`, whose `nameMap` it ranges over) reads of the
+things it iterates over. -/
+
+/-- tie: every statement of `disqualifyDifference` ("<depth> <text>", source order).  The model mirrors exactly this:
+a single-architecture shortcut, per architecture the set of (Name, Version) of EVERY listed record, and for every record
+of `arch` and every other architecture one membership test — no record is skipped, no other field is consulted. -/
+theorem tie_dqStmts : Generated.dqStmts =
+    ["0 dq := map[*RepositoryPackage]string{}",
+     "0 if len(byArch) == 1",
+     "1 return dq",
+     "0 allowablePackages := map[string]map[string]map[string]struct{}{}",
+     "0 for arch, indexes := range byArch",
+     "1 allowed := map[string]map[string]struct{}{}",
+     "1 for _, index := range indexes",
+     "2 for _, pkg := range index.Packages()",
+     "3 versions, ok := allowed[pkg.Name]",
+     "3 if !ok",
+     "4 versions = map[string]struct{}{}",
+     "3 versions[pkg.Version] = struct{}{}",
+     "3 allowed[pkg.Name] = versions",
+     "1 allowablePackages[arch] = allowed",
+     "0 for arch := range allowablePackages",
+     "1 p := newPkgResolver(ctx, byArch[arch])",
+     "1 for otherArch, allowed := range allowablePackages",
+     "2 if otherArch == arch",
+     "3 continue",
+     "2 for _, pkgVersions := range p.nameMap",
+     "3 for _, pkg := range pkgVersions",
+     "4 versions, ok := allowed[pkg.Name]",
+     "4 if !ok",
+     "5 dq[pkg.RepositoryPackage] = fmt.Sprintf(\"package %q not available for arch %q\", pkg.Filename(), otherArch)",
+     "5 continue",
+     "4 if _, ok := versions[pkg.Version]; !ok",
+     "5 dq[pkg.RepositoryPackage] = fmt.Sprintf(\"package %q not available for arch %q\", pkg.Filename(), otherArch)",
+     "0 return dq"] := by rfl
+
+/-- tie: of the things it iterates over `disqualifyDifference` reads the packages of an index, and of a record its
+name, its version, the object itself (the key of the result map) and `Filename()` (in the message text, which nothing
+compares) -/
+theorem tie_dqPkgReads : Generated.dqPkgReads =
+    ["index.Packages",
+     "pkg.Filename",
+     "pkg.Name",
+     "pkg.RepositoryPackage",
+     "pkg.Version"] := by rfl
+
+/-- tie: what `newPkgResolver` (whose `nameMap` the second loop ranges over) reads of a record — it skips nothing:
+every record is appended under its name (and under what it provides / as an install_if trigger) -/
+theorem tie_newPkgResolverReads : Generated.newPkgResolverReads =
+    ["index.Count",
+     "index.Name",
+     "index.Packages",
+     "pkg.InstallIf",
+     "pkg.Name",
+     "pkg.Provides"] := by rfl
+
+/-- over the regenerated list itself: nothing but name, version, identity and the message text is read of a record -/
+theorem dq_reads_only_keys :
+    (Generated.dqPkgReads.filter fun r => r != "index.Packages").all
+      (fun r => r == "pkg.Name" || r == "pkg.Version" || r == "pkg.RepositoryPackage" || r == "pkg.Filename") = true := by
+  decide
+
+/-- T `dq_ignores_other_fields`: two families whose architectures list records with the same identities, names and
+versions (in the same order) have the same up-front set, for every `self` — whatever else the records carry. -/
+theorem dq_ignores_other_fields (a1 a2 : List (Text × Universe)) (self : Text) (h : keyView a1 = keyView a2) :
+    disqualifyDifference a1 self = disqualifyDifference a2 self := by
+  rw [dq_factors_through_keys, dq_factors_through_keys, h]
+
+/-- T `dq_siblings_as_sets`: of the SIBLINGS not even order, repetition or identity matters — only which
+(name, version) pairs some other architecture lacks. -/
+theorem dq_siblings_as_sets (a1 a2 : List (Text × Universe)) (self : Text) (hlen : a1.length = a2.length)
+    (hself : (lookupT a1 self).map (fun u => u.all.map pkey) = (lookupT a2 self).map (fun u => u.all.map pkey))
+    (hsib : ∀ n v, ((keyView a1).any fun e => e.1 != self && !listed e.2 n v) =
+                   ((keyView a2).any fun e => e.1 != self && !listed e.2 n v)) :
+    disqualifyDifference a1 self = disqualifyDifference a2 self := by
+  rw [dq_factors_through_keys, dq_factors_through_keys]
+  apply dqOfKeys_siblings_as_sets
+  · simpa [keyView] using hlen
+  · unfold keyView
+    rw [lookupT_map (fun u : Universe => u.all.map pkey), lookupT_map (fun u : Universe => u.all.map pkey)]
+    exact hself
+  · exact hsib
+
+/-- the oracle's membership test is the same function of the key view -/
+theorem availableOn_eq_listed (other : Universe) (p : Pkg) :
+    availableOn other p = listed (other.all.map pkey) p.name p.version := by
+  unfold availableOn listed
+  rw [List.any_map]
+  rfl
+
+/-- non-vacuity: the records differ in origin, priority, dependencies, provides, install_if, repository — the key
+views agree, and the newer build that `b` lacks is disqualified in both families -/
+example :
+    let fam1 : List (Text × Universe) :=
+      [("a".toList, [⟨[], [], [C02.mk 0 "lib" "1" [] [] [], C02.mk 1 "lib" "2" [] [] []]⟩]),
+       ("b".toList, [⟨[], [], [C02.mk 0 "lib" "1" [] [] []]⟩])]
+    let fam2 : List (Text × Universe) :=
+      [("a".toList, [⟨"edge".toList, "u".toList, [{ C02.mk 0 "lib" "1" ["x"] ["v=1"] ["y"] with priority := 7, origin := "o".toList }]⟩,
+                    ⟨[], [], [C02.mk 1 "lib" "2" ["z"] [] []]⟩]),
+       ("b".toList, [⟨[], [], [C02.mk 0 "lib" "1" [] ["w"] []]⟩])]
+    fam1.map (·.2.length) ≠ fam2.map (·.2.length) ∧ (fam1.map (·.2.all.map (·.deps))) ≠ (fam2.map (·.2.all.map (·.deps))) ∧
+      keyView fam1 = keyView fam2 ∧ disqualifyDifference fam1 "a".toList = [1] ∧
+      disqualifyDifference fam2 "a".toList = [1] := by
+  refine ⟨by decide, by decide, by decide, by decide, by decide⟩
+
 /-- F14a: an install_if package that exists on one architecture only is still in that
 architecture's multi-arch set (the install_if expansion never consults the filter). -/
 def x86 : Universe := [⟨[], "r/x86_64".toList,
@@ -178,6 +296,27 @@ theorem firstUnavailable_none_iff (archs : List (Text × Universe)) (self : Text
     simp only [Bool.and_eq_true, bne_iff_ne, ne_eq, Bool.not_eq_true', not_and, Bool.not_eq_false]
     intro hne
     exact h p hp a other hm hne
+
+/-- the oracle over the key view: it, too, looks at (name, version) membership per architecture and nothing else -/
+theorem firstUnavailable_none_iff_keys (archs : List (Text × Universe)) (self : Text) (s : List Pkg) :
+    Driver.Resolver.firstUnavailable archs self s = none ↔
+      ∀ p ∈ s, ∀ e ∈ keyView archs, e.1 ≠ self → listed e.2 p.name p.version = true := by
+  rw [firstUnavailable_none_iff]
+  constructor
+  · intro h p hp e he hne
+    obtain ⟨⟨a, o⟩, hm, rfl⟩ := List.mem_map.mp he
+    rw [← availableOn_eq_listed]
+    exact h p hp a o hm hne
+  · intro h p hp a o hm hne
+    rw [availableOn_eq_listed]
+    exact h p hp (a, o.all.map pkey) (List.mem_map.mpr ⟨(a, o), hm, rfl⟩) hne
+
+/-- T `oracle_ignores_other_fields`: the verdict on an install set is the same for two families with the same key
+views (the oracle of the suites is unchanged by the architecture-field dimension of the generators) -/
+theorem oracle_ignores_other_fields (a1 a2 : List (Text × Universe)) (h : keyView a1 = keyView a2) (self : Text)
+    (s : List Pkg) :
+    Driver.Resolver.firstUnavailable a1 self s = none ↔ Driver.Resolver.firstUnavailable a2 self s = none := by
+  rw [firstUnavailable_none_iff_keys, firstUnavailable_none_iff_keys, h]
 
 /-- what the driver's oracle reports is a member that is missing on a named other architecture -/
 theorem firstUnavailable_some {archs : List (Text × Universe)} {self : Text} {s : List Pkg} {p : Pkg}
